@@ -150,10 +150,13 @@ def load_cases(out):
     cf = os.path.join(out, "cases_corpus.jsonl")
     if os.path.exists(cf):
         rows += [json.loads(ln) for ln in open(cf) if ln.strip()]
+    sf = os.path.join(out, "cases_sizes.jsonl")
+    if os.path.exists(sf):
+        rows += [json.loads(ln) for ln in open(sf) if ln.strip()]
     hs = glob.glob(os.path.join(out, "cases_hist*.jsonl"))
     for f in sorted(hs, key=lambda p: int(p.split("_hist")[-1].split(".")[0])):
         rows += [json.loads(ln) for ln in open(f) if ln.strip()]
-    fs = [p for p in glob.glob(os.path.join(out, "cases_*.jsonl")) if not p.endswith("corpus.jsonl") and p not in hs]
+    fs = [p for p in glob.glob(os.path.join(out, "cases_*.jsonl")) if not p.endswith("corpus.jsonl") and p not in hs and p != sf]
     for f in sorted(fs, key=lambda p: int(p.split("_")[-1].split(".")[0])):
         rows += [json.loads(ln) for ln in open(f) if ln.strip()]
     return rows
@@ -239,8 +242,26 @@ def run(ctx, known, built):
     SH = 250
     files = []
     shard_rows = {}
-    for b in range(0, len(rows), SH):
-        part = rows[b:b + SH]
+    # not evaluated in Coq: glyphs too large (implementation-side oracle only), and written files that
+    # hold a character XML forbids (C0 controls other than tab, LF, CR; U+FFFE, U+FFFF), which the
+    # independent reader rejects - for those the round-trip oracle above is the check
+    def forbidden(r):
+        try:
+            t = bytes.fromhex(r["bytes"]).decode("utf-8")
+        except UnicodeDecodeError:
+            return False
+        return any((ord(c) < 32 and c not in "\t\n\r") or c in "\ufffe\uffff" for c in t)
+    skipped = {"too large": 0, "XML-forbidden character": 0}
+    crows = []
+    for r in rows:
+        if r.get("nomodel"):
+            skipped["too large"] += 1
+        elif forbidden(r):
+            skipped["XML-forbidden character"] += 1
+        else:
+            crows.append(r)
+    for b in range(0, len(crows), SH):
+        part = crows[b:b + SH]
         vf = os.path.join(out, "cases_%d.v" % b)
         with open(vf, "w") as f:
             f.write(HEADER)
@@ -291,16 +312,20 @@ def run(ctx, known, built):
         "evaluations": len(rows),
         "distinct_nontrivial": len({r["case"] for r in rows if r["valid"] and r["verdict"] in ("equal", "differs")}),
         "rule": "glyph values built through the public API (all fields, legal contours, identifiers, object libs, libs "
-                "with every plist type, strings with XML metacharacters / blanks / line breaks / non-BMP, numbers from a "
+                "with every plist type, strings / keys / notes with XML metacharacters, blanks, line breaks, non-BMP, DEL and C1 "
+                "controls (legal XML) and, rarely, C0 controls (not legal XML: round-trip oracle only), numbers from a "
                 "boundary set) x two write-option sets each (indent char, width 0..8, quote style); one glyph in 12 breaks "
-                "a validity rule (model comparison only); plus write histories (3..24 writes on one thread each: valid glyphs, "
+                "a validity rule (model comparison only); plus glyphs of chosen sizes (every identifier count 0..70, 100, 150, 300, "
+                "1000; up to 1000 objects without identifiers, 300 code points, 1000 lib keys; above 160 items the "
+                "round-trip oracle only); plus write histories (3..24 writes on one thread each: valid glyphs, "
                 "glyphs with a UID in the glyph lib / an object lib / an unwritten place, user public.objectLibs, "
                 "Glyph::save, failing reads in between), every write compared with the same write on a fresh thread. "
                 "Non-trivial = distinct valid glyph x options whose bytes were "
                 "read back.",
         "exhaustive": False,
         "input_distribution": hist,
-        "traces_validated_against_impl": len(rows),
+        "traces_validated_against_impl": len(crows),
+        "not_evaluated_in_model": skipped,
         "stale_witnesses": sorted(stale),
     })
     for r in rows[:3]:
